@@ -32,11 +32,11 @@ class Job:
         self.descr = descr
 
 
-def make_seq_file(ck, rng, kind=None, equal=False, n=None):
+def make_seq_file(ck, rng, kind=None, equal=False, n=None, long=False):
     kind = kind or rng.choice(["dna", "protein"])
     alpha = gen.DNA if kind == "dna" else gen.AA
     n = n or rng.randint(2, 25)
-    L = rng.randint(8, 150)
+    L = rng.randint(8, 150) if not long else rng.choice([1030, 1100, 1600])
     if equal:
         root = gen.rand_seq(rng, L, alpha)
         seqs = [gen.mutate(rng, root, alpha, 0.15, 0.0)[:L].ljust(L, alpha[0]) for _ in range(n)]
@@ -67,7 +67,9 @@ def gen_job(ck, rng):
     if k == "churn":
         return Job(k, ["churn %d %d" % (rng.randint(1, 10 ** 6), rng.choice([200, 2000]))], [], {})
     if k in ("rrwf", "rrwf_multi", "big_threads", "reread"):
-        kind, seqs = make_seq_file(ck, rng, n=rng.randint(100, 130) if k == "big_threads" else None)
+        long_ = (k == "reread" and rng.random() < 0.4)
+        kind, seqs = make_seq_file(ck, rng, n=rng.randint(100, 130) if k == "big_threads" else (rng.randint(2, 6) if long_ else None),
+                                   equal=(k == "big_threads" and rng.random() < 0.5), long=long_)
         names = gen.names(rng, len(seqs), "s")
         recs = list(zip(names, seqs))
         lines = []
